@@ -4,4 +4,5 @@ T=$(mktemp -d /tmp/qs_XXXXXX)
 /venv/bin/python -c "import sys; sys.path.insert(0,'/verif'); from sa.selftest import _copy_sources; _copy_sources('$T')" 2>/dev/null
 (cd $T && patch -p1 -s --forward -i "$2" </dev/null) || echo "PATCH FAILED"
 VERIF_REPO=$T VERIF_EVIDENCE_DIR=$T/_ev /verif/check "$1" --tier quick | grep -E "^cherab|^ANALYSIS|quick:" | cut -c1-300
+python3 -c "import json,sys; [print(u[:400]) for u in json.load(open('$T/_ev/$1.json'))['coverage'].get('undecided',[])]" 2>/dev/null
 rm -rf $T
